@@ -268,6 +268,21 @@ let cmd_sparseops t =
   out_z (sparse_dot_product a b); out_sep ();
   out_z (fast_intersection_size (List.map fst a) (List.map fst b))
 
+(* lattice dim x[dim] y[dim] : the polynomial metrics, dense | sparse on the CSR encodings | the two encodings *)
+let cmd_lattice t =
+  let dim = next_int t in
+  let x = next_list t dim in
+  let y = next_list t dim in
+  let o (p, q) = out_z p; out_z q in
+  out_z (squared_euclidean x y); out_z (manhattan x y); out_z (chebyshev x y); o (hamming x y); o (bray_curtis x y);
+  out_sep ();
+  let a = sparsify Z0 x in let b = sparsify Z0 y in
+  out_z (sparse_squared_euclidean a b); out_z (sparse_manhattan a b); out_z (sparse_chebyshev a b);
+  o (sparse_hamming a b (z_of_int dim));
+  out_sep ();
+  let outv v = out_list (List.map fst v); out_str ";"; out_list (List.map snd v) in
+  outv a; out_sep (); outv b
+
 (* binmetrics dim x[dim] y[dim] : all count-based metrics as num den pairs *)
 let cmd_binmetrics t =
   let dim = next_int t in
@@ -406,6 +421,7 @@ let dispatch : (string * (toks -> unit)) list = [
   ("fmul", cmd_fmul);
   ("sparseops", cmd_sparseops);
   ("binmetrics", cmd_binmetrics);
+  ("lattice", cmd_lattice);
   ("otcert", cmd_otcert);
   ("rejsample", cmd_rejsample);
   ("aliasrun", cmd_aliasrun);
